@@ -251,8 +251,16 @@ def mon_init_barrier(case):
     gen = 0
     execd, registered, asked = {}, set(), set()
     delivered_in_gen = False
+    rt_started, gen_fault, all_reg_step = False, False, None
+    hold_cfg, held = set(), set()
     for i, (ws, obs, side) in enumerate(case["steps"]):
         es = entries(obs)
+        if ws[0] == "beh":
+            (hold_cfg.add if "exec=hold" in ws else hold_cfg.discard)(ws[1])
+        if ws[0] == "release":
+            held.discard(ws[1])
+        if ws[0] in ("reset", "shutdown", "exit", "sleep") or any(e.startswith(("sup exited:", "sup kill", "sup term")) or ".register=403" in e for e in es):
+            gen_fault = True        # from here on the initialisation of this generation may legitimately fail
         actor = None
         if ws[0] in ("ext", "int") and len(ws) > 2:
             actor = ws[1]
@@ -265,6 +273,12 @@ def mon_init_barrier(case):
             base, g = _gen_of(n)
             if g != gen:
                 gen = g; execd = {}; registered = set(); asked = set(a for a in asked if False); delivered_in_gen = False
+                rt_started, gen_fault, all_reg_step = False, False, None
+                held = set()
+            if base == "runtime":
+                rt_started = True
+            elif base in hold_cfg:
+                held.add(base)
             if base != "runtime":
                 execd[base] = execd.get(base, 0) + 1
                 if execd[base] > 1:
@@ -283,6 +297,11 @@ def mon_init_barrier(case):
                 missing = [x for x in execd if x not in registered]
                 if missing:
                     out.append(f"step {i+1}: runtime started although extension(s) {missing} launched in generation {g} had not registered")
+        if all_reg_step is None and not gen_fault and not held and c["exts"] and len(execd) == len(c["exts"]) and all(x in registered for x in execd):
+            # the orchestrator has nothing left to wait for: by the time the stack is quiescent the runtime runs
+            all_reg_step = i + 1
+            if not rt_started:
+                out.append(f"step {i+1}: every extension launched in generation {gen} has registered and nothing has failed, yet the runtime was not started")
         deliveries = [e for e in es if re.match(r"\w+\.next=200,INVOKE", e) or e.startswith("rt.next=200,id#")]
         if deliveries:
             need = set(registered) | {"rt"}
